@@ -14,8 +14,8 @@
 (* (the order never reaches the caller: allpths is "currently not enabled").          *)
 EXTENDS Paths
 CONSTANTS Domains          \* triples <<n, allsources, qmaxes>>
-VARIABLES inp, st
-vars == <<inp, st>>
+VARIABLES inp, st, ref      \* ref: the L0 answer for inp, computed once (auxiliary)
+vars == <<inp, st, ref>>
 
 DPairs(n) == {p \in (1..n) \X (1..n) : p[1] # p[2]}
 BinInputs(n) == {EMat(n, LAMBDA i, j : IF <<i, j>> \in E THEN 1 ELSE 0) : E \in SUBSET DPairs(n)}
@@ -26,6 +26,7 @@ Init == /\ \E dom \in Domains :
              inp \in {[n |-> dom[1], A |-> A, srcs |-> s, qmax |-> Q] :
                         A \in BinInputs(dom[1]), s \in SrcSeqs(dom[1], dom[2]), Q \in dom[3]}
         /\ st = [pc |-> "init"]
+        /\ ref = <<>>
 
 N == inp.n
 QM == inp.qmax
@@ -33,6 +34,7 @@ SrcSet == SeqToSet(inp.srcs)
 
 Seed ==
   /\ st.pc = "init"
+  /\ ref' = [tab |-> FPathsTab(N, inp.A, SrcSet, QM), L |-> FindPathsL0(N, inp.A, SrcSet, QM)]
   /\ st' = LET P == FpSeed(N, inp.A, inp.srcs) IN
            [pc |-> IF QM >= 2 THEN "for" ELSE "fin", q |-> IF QM >= 2 THEN 2 ELSE 1,
             pths |-> P, npths |-> <<>>, endp |-> <<>>,
@@ -65,25 +67,25 @@ Finish ==
   /\ st' = LET plq == [k \in 1..QM |-> SumAll(N, st.Pq[k])] IN
            [pc |-> "done", Pq |-> st.Pq, util |-> st.util, qstop |-> st.q,
             plq |-> plq, tpath |-> SeqSum(plq)]
-Next == (Seed \/ BeginQ \/ Endpoint \/ EndQ \/ Finish) /\ UNCHANGED inp
+Next == (Seed \/ ((BeginQ \/ Endpoint \/ EndQ \/ Finish) /\ UNCHANGED ref)) /\ UNCHANGED inp
 Spec == Init /\ [][Next]_vars
 FairSpec == Spec /\ WF_vars(Next)
 
 (* ------------------------------------------------------------ invariants ---------- *)
 NoDup(s) == Cardinality(SeqToSet(s)) = Len(s)
-Tab == FPathsTab(N, inp.A, SrcSet, QM)
+Tab == ref.tab
 
 (* the three L0 definitions agree on every input (checked once per input: every          *)
 (* behaviour passes pc = "fin" exactly once; initial states are checked single-threaded)  *)
 DefsAgreeInv ==
   st.pc = "fin" =>
     /\ \A q \in 1..QM : Tab[q] = FPathsDecl(N, inp.A, SrcSet, q)
-    /\ FindPathsDp(N, inp.A, SrcSet, QM) = FindPathsL0(N, inp.A, SrcSet, QM)
+    /\ FindPathsDp(N, inp.A, SrcSet, QM) = ref.L
 
 (* facts the docstrings state about the definition itself                              *)
 DocNotesInv ==
   st.pc = "fin" =>
-    LET L == FindPathsL0(N, inp.A, SrcSet, QM) IN
+    LET L == ref.L IN
     (* "Pq(:,:,N) can only carry entries on the diagonal"; nothing beyond N             *)
     /\ \A q \in 1..QM : q >= N => \A i, j \in 1..N : i # j => L.Pq[q][i][j] = 0
     /\ \A q \in 1..QM : q > N => L.plq[q] = 0
@@ -101,7 +103,7 @@ DocNotesInv ==
 (* q-1 connections that can be continued; the slices below q are final, the rest empty  *)
 ForInv ==
   st.pc = "for" =>
-    LET L == FindPathsL0(N, inp.A, SrcSet, QM) IN
+    LET L == ref.L IN
     /\ st.q \in 2..QM
     /\ NoDup(st.pths) /\ SeqToSet(st.pths) = OpenOf(Tab[st.q - 1]) /\ (st.q > 2 => st.pths # <<>>)
     /\ \A k \in 1..(st.q - 1) : st.Pq[k] = L.Pq[k] /\ st.util[k] = L.util[k]
@@ -118,7 +120,7 @@ EndpInv ==
 (* what the caller gets                                                                  *)
 FinalInv ==
   st.pc = "done" =>
-    LET L == FindPathsL0(N, inp.A, SrcSet, QM) IN
+    LET L == ref.L IN
     /\ st.Pq = L.Pq /\ st.util = L.util /\ st.plq = L.plq /\ st.tpath = L.tpath
     /\ st.qstop = L.qstop
 (* the machine never gets stuck before `done` (q grows with every BeginQ .. EndQ round)  *)
